@@ -242,6 +242,8 @@ func parseStaged(spec, zone string) expr {
 			rs := strings.SplitN(p, "/", 2)
 			lh := strings.SplitN(rs[0], "-", 2)
 			switch {
+			case p == "":
+				t.K = "empty"
 			case rs[0] == "*" && len(rs) == 1:
 				t.K = "star"
 			case rs[0] == "?":
@@ -392,6 +394,9 @@ func fullRangeRuns() []*run {
 		5: {"1-12", "jan-dec", "JAN-12", "1-12/1", "1/1", "jan/1", "1-6,jul-dec"},
 		6: {"0-6", "sun-sat", "SUN-6", "0-6/1", "0/1", "sun/1", "0-3,thu-sat", "mon-sat,0"},
 	}
+	// a star with an explicit step of one, or a star as a list item, is still a field written with a star
+	full[4] = append(full[4], "*/1", "*,5", "5,*", "*/1,10")
+	full[6] = append(full[6], "*/1", "*,5", "fri,*", "?")
 	otherDay := map[int][]string{4: {"sun", "1", "mon-fri", "2/3", "*/2", "*", "?"}, 6: {"1", "15", "13,31", "*/10", "29-31", "*", "?"}}
 	zones := []string{"UTC", "America/New_York", "Europe/Berlin", "Asia/Kolkata"}
 	froms := []string{"2024-02-27T23:59:30", "2025-05-31T12:00:00", "2031-12-30T06:30:15"}
@@ -454,6 +459,31 @@ func fullRangeRuns() []*run {
 			fs[f-1], fs[g-1] = v, full[g][i%len(full[g])]
 			add(fs)
 		}
+	}
+	return out
+}
+
+// ---------- empty list items ----------
+
+// oddListRuns: expressions with an empty list item (",", "1,,15").  They are outside the documented grammar, so the
+// parser may refuse them or give them any meaning - but if it accepts, Next has to return (the zero time, for a field
+// that allows nothing).  A Next that does not return is reported as next:hang:empty-list-item.
+func oddListRuns() []*run {
+	specs := []string{"0 0 0 1 , *", "0 0 1 , *", "0 0 0 , * *", "0 0 0 * * ,", "0 0 , * * *", "0 0 0 1,,15 * *", "0 0 0 * 1,,6 *", "0 0 0 * ,6 *", "0 0 0 * 6, *", "0 0 * * ,"}
+	zones := []string{"UTC", "Asia/Kolkata", "America/New_York"}
+	var out []*run
+	for i, sp := range specs {
+		zone := zones[i%len(zones)]
+		st, _ := time.ParseInLocation("2006-01-02T15:04:05", "2025-05-31T12:00:00", mustLoad(zone))
+		r := &run{Zone: zone, Steps: 2, Mode: "oddlist", Start: st, X: parseStaged(sp, zone), Carry: "same"}
+		if len(r.X.Fields) == 5 {
+			r.X.Places = placeSets[0]
+		}
+		if i%2 == 1 {
+			r.X.TZ, r.X.TZKnown, r.X.Prefix = "", false, ""
+			r.Carry = "zone"
+		}
+		out = append(out, r)
 	}
 	return out
 }
@@ -755,6 +785,9 @@ func findingKey(r *run, at int, why string) string {
 		return "parse:" + slug(strings.TrimPrefix(why, "parse: "))
 	}
 	// Next
+	if strings.HasPrefix(r.Mode, "oddlist") {
+		return "next:" + strings.TrimPrefix(strings.SplitN(why, ";", 2)[0], "next: ") + ":empty-list-item"
+	}
 	if r.Sched != nil && r.Out.Kind == "every" {
 		return "every:next"
 	}
@@ -1124,6 +1157,11 @@ func TestCheck(t *testing.T) {
 		e.Nontrivial(r.Text + "|" + r.Zone + "|" + strconv.FormatInt(r.Start.Unix(), 10))
 	}
 	e.Set("full_range_runs", int64(len(fr)))
+	for _, r := range oddListRuns() {
+		r.execute()
+		runs = append(runs, r)
+		nextCalls += len(r.Nexts)
+	}
 	e.Set("sweep_runs", int64(sweepN))
 	e.Set("staged_cases", int64(len(stagedCases)))
 	e.Set("runs", int64(len(runs)))
@@ -1157,6 +1195,7 @@ func TestCheck(t *testing.T) {
 	e.Set("evaluations", int64(nextCalls+len(runs)+len(termRuns)))
 	e.Set("rule", "a run = one expression (AST drawn from the field grammar: every term form for every field, lists <= 3, names, ?, descriptors, @every; or one planted defect of each refusal class) x parser option set x TZ=/CRON_TZ= prefix or process-local zone x zone (fixed, whole-hour DST both hemispheres, midnight transitions, 30/45-minute offsets, 30-minute DST, skipped day) x start instant (within 3 h of a transition 2010-2035, calendar corners, random; 9% of the runs in 2096-2104 / 2196-2204 around the century years without 29 February) carried in another Location, walked 1-20 Next steps; plus, without randomness: staged cases (five-year horizon, century years, fixed defect reproducers), fields written out in full without a star (lo-hi, names, /1, covering lists) alone and next to a restricted other day field, leap-day / impossible-date expressions (5 and 6 fields, TZ= / CRON_TZ= / no prefix) from the years before 1900, 2100, 2200 and around ordinary leap years, a sweep of expressions aimed at the transitions of the zones with midnight / off-hour / 30-minute / day-skipping changes (quick: 1 in 29 of the family, thorough: all; the seeded walks use the other zones), and every single term of every field enumerated by TLC; each Parse and each Next call is one evaluation judged by TLC; non-trivial = a run with at least one Next call, or an enumerated term; distinct by expression text, zone and start instant")
 	rejected := map[*run]bool{}
+	rejectedWhy := map[*run]string{}
 	calendarMismatch := 0
 	sort.Slice(rej, func(i, j int) bool { return rej[i].run.Text+rej[i].run.Zone < rej[j].run.Text+rej[j].run.Zone })
 	perKey := map[string]int{}
@@ -1181,6 +1220,7 @@ func TestCheck(t *testing.T) {
 	}()
 	for _, v := range rej {
 		rejected[v.run] = true
+		rejectedWhy[v.run] = v.why
 		if strings.Contains(v.why, "SPEC-CALENDAR-MISMATCH") {
 			calendarMismatch++
 			if calendarMismatch == 1 {
@@ -1215,7 +1255,8 @@ func TestCheck(t *testing.T) {
 		mis[r] = true
 	}
 	for r := range sampled {
-		if rejected[r] && !mis[r] {
+		// (a reject about another field of the six-field wrapper - always "*" - says nothing about the enumerated term)
+		if f := strings.Split(r.Mode, ":"); rejected[r] && !mis[r] && len(f) > 1 && strings.Contains(rejectedWhy[r], f[1]) {
 			e.Inconclusive("trace validation rejects a term the enumeration agrees with: " + r.Text)
 			break
 		}
@@ -1242,7 +1283,7 @@ func TestCheck(t *testing.T) {
 	e.Assume("tzdata is trusted: the zone tables handed to TLC are read from the Go runtime's time.ZoneBounds/Zone (the code under test uses time.Date/Add/In)",
 		"the duration syntax of '@every d' is time.ParseDuration's; the harness hands d (whole seconds) to the spec",
 		"expressions outside the documented grammar (e.g. '*-5', '+5', empty list items, '?' outside the day fields) are not generated; a schedule without TZ= prefix is read in the zone of the instant handed to Next (spec.go: 'treated as local to the time provided'; this is how cron.WithLocation takes effect)",
-		"either-day rule: only a literal * or ? makes a day field unrestricted (a full range written with numbers or names, 1-31 or sun-sat, is restricted); for a star inside a list and for '*/1' both readings are accepted",
+		"either-day rule: only a literal * or ? makes a day field unrestricted (a full range written with numbers or names, 1-31 or sun-sat, is restricted); a star term, also as '*/1' or as a list item, makes it unrestricted",
 		"'none within five years': a match whose wall-clock reading is at most five calendar years after that of t (by the wall clock of the schedule's zone) must be returned; if the first match is later, it or the zero time is accepted",
 		"instants are handed to TLC relative to 1 January of the run's epoch year (32-bit integers); the calendar arithmetic is absolute, so any century is judged (runs around 2096-2104 and 2196-2204 are generated)")
 }
